@@ -300,6 +300,27 @@ fn main() {
                 if !flushed {
                     shared.violations.lock().unwrap().push(format!("flush_false observer {j} round {round}: flush returned false"));
                 }
+                if let SlotKind::Shared = slot {
+                    // the crate-level entry points over the shared slot: before initialisation safe no-ops (flush is
+                    // true), afterwards the winner's components
+                    if !emit::blocking_flush(Duration::ZERO) {
+                        shared.violations.lock().unwrap().push(format!(
+                            "flush_false observer {j} round {round}: emit::blocking_flush returned false (slot enabled: {enabled})"
+                        ));
+                    }
+                    if !emit::emitter().blocking_flush(Duration::ZERO) {
+                        shared.violations.lock().unwrap().push(format!("flush_false observer {j} round {round}: emit::emitter().blocking_flush returned false"));
+                    }
+                    let free_clock = emit::clock().now().map(|t| t.to_unix().as_secs());
+                    let free_ctxt = emit::ctxt().with_current(|p| p.pull::<u32, _>("ctxt_tag"));
+                    if let (Some(c), Some(x)) = (free_clock, free_ctxt) {
+                        if c != 1000 + x as u64 {
+                            shared.violations.lock().unwrap().push(format!(
+                                "torn_configuration observer {j} round {round}: emit::clock() belongs to configuration {} and emit::ctxt() to {x}", c - 1000
+                            ));
+                        }
+                    }
+                }
                 let mine: Vec<Got> = shared.received.lock().unwrap()[before..]
                     .iter()
                     .filter(|g| g.thread == thread::current().id())
